@@ -98,7 +98,7 @@ class C16(Check):
         "a decimal written with more digits than the precision only because of trailing zeros (1.2300 for precision 3) may be refused or stored; both are accepted",
     ]
     required_labels = ["enum:date", "enum:time-millis", "enum:time-micros", "gen:timestamp-aware", "gen:timestamp-naive", "gen:local-timestamp", "gen:uuid",
-                       "dec:fixed", "dec:bytes", "dec:must-raise", "dec:negative", "dec:negative-zero", "dec:positive-exponent", "dec:roundtrip", "pre-epoch", "offset:nonzero"]
+                       "dec:fixed", "dec:bytes", "dec:must-raise", "dec:negative", "dec:negative-zero", "dec:positive-exponent", "dec:roundtrip", "pre-epoch", "offset:nonzero", "wrapped:record", "wrapped:array", "wrapped:union", "wrapped:map"]
     quick = (2500, 4)
     thorough = (20000, 16)
     exhaustive = False
@@ -168,13 +168,15 @@ class C16(Check):
             d = gen.D(draw)
             w = d.i(10)
             if w < 4:
-                return self._gen_timestamp(d, draw)
+                c = self._gen_timestamp(d, draw)
+                c["wrap"] = d.choice([None, None, "record", "array", "union", "map"])
+                return c
             if w < 5:
-                return {"kind": "value", "lt": "uuid", "value": draw(st.uuids()) if d.p(0.8) else uuid.UUID(int=d.choice([0, 1, 2**128 - 1, 2**64]))}
+                return {"kind": "value", "lt": "uuid", "value": draw(st.uuids()) if d.p(0.8) else uuid.UUID(int=d.choice([0, 1, 2**128 - 1, 2**64])), "wrap": d.choice([None, "record", "array", "union", "map"])}
             if w < 6:
                 lt = d.choice(["time-millis", "time-micros"])
                 t = dt.time(d.rng(0, 23), d.rng(0, 59), d.rng(0, 59), d.choice([0, 1, 999, 1000, 999999, 999000, 500, 123456]) if d.p(0.6) else d.rng(0, 999999))
-                return {"kind": "value", "lt": lt, "value": t}
+                return {"kind": "value", "lt": lt, "value": t, "wrap": d.choice([None, "record", "array", "union", "map"])}
             return self._gen_decimal(d, draw)
 
         return cases()
@@ -260,7 +262,7 @@ class C16(Check):
                 vals.update((s * unit - 1, s * unit, s * unit + 1))
             return self._enum(case["lt"], sorted(v for v in vals if 0 <= v < 86400 * unit))
         if kind == "value":
-            return self._value(case["lt"], case["value"])
+            return self._value(case["lt"], case["value"], case.get("wrap"))
         if kind == "decimal":
             return self._decimal(case)
         raise HarnessError(kind)
@@ -312,7 +314,18 @@ class C16(Check):
                 raise Violation("logical-roundtrip:" + lt, f"wrote {v!r}, read {got!r}")
         return labels
 
-    def _value(self, lt, v):
+    def _wrapped(self, lt, wrap):
+        key = (lt, wrap)
+        if key not in PARSED:
+            s = SCHEMAS[lt]
+            js = {"record": {"type": "record", "name": "W", "fields": [{"name": "pad", "type": "string"}, {"name": "v", "type": s}]},
+                  "array": {"type": "array", "items": s},
+                  "union": ["null", s],
+                  "map": {"type": "map", "values": ["null", s]}}[wrap]
+            PARSED[key] = fastavro.parse_schema(js)
+        return PARSED[key]
+
+    def _value(self, lt, v, wrap=None):
         schema = parsed(lt)
         labels = set()
         node = node_for(lt)
@@ -341,13 +354,32 @@ class C16(Check):
                 labels.add("gen:" + lt)
                 raw = RL.to_raw(node, v)
             want = varint(raw)
+        exp = trunc_expected(lt, v)
+        if wrap:
+            # the same value nested in a record / array / union / map of unions: same leaf bytes, same read-back
+            labels.add("wrapped:" + wrap)
+            ws = self._wrapped(lt, wrap)
+            datum, pre, post, unwrap = {
+                "record": ({"pad": "p", "v": v}, b"\x02p", b"", lambda r: r["v"]),
+                "array": ([v, v], b"\x04", None, lambda r: r[1]),
+                "union": (v, b"\x02", b"", lambda r: r),
+                "map": ({"k": v}, b"\x02\x02k\x02", b"\x00", lambda r: r["k"]),
+            }[wrap]
+            wantw = pre + bytes(want) + (bytes(want) + b"\x00" if wrap == "array" else post)
+            fo = io.BytesIO()
+            guard("logical-write:" + lt, fastavro.schemaless_writer, fo, ws, datum)
+            if fo.getvalue() != wantw:
+                raise Violation("logical-representation:" + lt + ":" + wrap, f"{v!r} nested in {wrap} stored as {fo.getvalue().hex()}, specification gives {wantw.hex()}")
+            back = guard("logical-read:" + lt, fastavro.schemaless_reader, io.BytesIO(wantw), ws)
+            gotw = unwrap(back)
+            if gotw != exp or type(gotw) is not type(exp):
+                raise Violation("logical-roundtrip:" + lt + ":" + wrap, f"wrote {v!r} nested in {wrap}, read {gotw!r}, expected {exp!r}")
         fo = io.BytesIO()
         guard("logical-write:" + lt, fastavro.schemaless_writer, fo, schema, v)
         blob = fo.getvalue()
         if blob != bytes(want):
             raise Violation("logical-representation:" + lt, f"{v!r} stored as {blob.hex()}, specification gives {bytes(want).hex()}")
         got = guard("logical-read:" + lt, fastavro.schemaless_reader, io.BytesIO(blob), schema)
-        exp = trunc_expected(lt, v)
         if got != exp or type(got) is not type(exp):
             raise Violation("logical-roundtrip:" + lt, f"wrote {v!r}, read {got!r}, expected {exp!r}")
         if isinstance(exp, dt.datetime):
